@@ -285,3 +285,22 @@ Theorem example_failed_creations :
             res_try_reserve (st_ctl s) = Ok ArenaFull /\
             no_late (map XL ex_fail_sched).
 Proof. exact ex_failed_creations. Qed.
+
+(** The gameplay-side end of a storage is gone (its owner's handle was dropped while the storage lives
+    on: a [persist_until_sounds_finish] track with sounds still playing, a parent track kept alive by a
+    child), i.e. from some point on only the audio thread and the environment take steps, in ANY order and
+    for ever: nothing panics — the unused-ring (capacity + 1 slots) never overflows although nobody drains
+    it, because no creation follows —, every removal still happens ([prompt_removal] does not need the
+    gameplay thread), and NO payload is destroyed: everything removed is parked in the ring (or in flight)
+    until the storage's owner is itself destroyed, by whoever destroys it (a caller's thread, by this same
+    theorem one level up). *)
+Theorem abandoned_owner_parks_payloads :
+  forall cf sched1 s1 sched2,
+    run cf sched1 (init cf) = Ok s1 -> consumer_gone sched2 ->
+    exists s2, run cf sched2 s1 = Ok s2 /\
+               st_destroyed s2 = st_destroyed s1 /\ st_next s2 = st_next s1 /\
+               length (st_unused s2) + length (infl (st_inflight s2)) <= unused_cap cf /\
+               Permutation (seq 0 (st_next s2))
+                 (map snd (st_newq s2) ++ slot_payloads (aslots (st_ar s2))
+                    ++ (st_unused s2 ++ infl (st_inflight s2)) ++ map fst (st_destroyed s2)).
+Proof. exact abandoned_owner_parks_payloads_proof. Qed.
